@@ -3,7 +3,7 @@
    A = the abstract book of Abs.v; [holds] = the monitor of Spec.v that is run on
    the implementation's traces; m_* = the model of pstoremem; d_* = the model of pstoreds. *)
 From Coq Require Import List ZArith Bool.
-From Verif Require Import lib.Wire gen.Consts_c09 c09.Abs c09.Model_mem c09.Model_ds c09.Spec c09.Proofs_mem c09.Proofs.
+From Verif Require Import lib.Wire gen.Consts_c09 c09.Abs c09.Model_mem c09.Model_ds c09.Spec c09.Proofs_mem c09.Proofs_ds c09.Proofs.
 Import ListNotations.
 Local Open Scope Z_scope.
 
@@ -61,6 +61,31 @@ Theorem c09_ds_agrees_on_witnesses :
               (map snd (d_trace c w)) (map snd (a_trace a_init w))) ds_cfgs) all_wits = true.
 Proof. exact witnesses_agree_l. Qed.
 Print Assumptions c09_ds_agrees_on_witnesses.
+
+(* ---- datastore-backed book (model of pstoreds, repaired tree) --------------------------- *)
+(* cache sizes 0 and > 0: the same answers on EVERY history (no hypothesis), in both GC modes *)
+Theorem c09_ds_cache_transparent : forall look ops,
+  map snd (d_trace (d_init true look) ops) = map snd (d_trace (d_init false look) ops).
+Proof. exact ds_cache_transparent_l. Qed.
+Print Assumptions c09_ds_cache_transparent.
+
+(* close + reopen on the same datastore after EVERY prefix of EVERY history: the same answers to
+   every continuation (no hypothesis; cache on or off, both GC modes) *)
+Theorem c09_ds_reopen_equiv : forall cached look pre post,
+  map snd (d_trace (d_run (d_init cached look) (pre ++ [OReopen])) post) =
+  map snd (d_trace (d_run (d_init cached look) pre) post).
+Proof. exact ds_reopen_equiv_l. Qed.
+Print Assumptions c09_ds_reopen_equiv.
+
+(* expired addresses are never returned by the datastore-backed book: after every history the record
+   Addrs reads from holds only entries whose (whole-second) expiry lies in the future — clean()'s
+   "look at the first entry, cut a prefix" is sound because every stored record is sorted by expiry.
+   Stated for the cache-less book; c09_ds_cache_transparent carries it to every cache. *)
+Theorem c09_ds_expired_never_returned : forall look ops p,
+  let s := d_run (d_init false look) ops in
+  forall e, In e (daddrs (snd (fst (load s p true true)))) -> unix (d_now s) < dexp e.
+Proof. exact ds0_addrs_live. Qed.
+Print Assumptions c09_ds_expired_never_returned.
 
 (* the two repaired defects (DESIGN 9 items 1 and 2) are absent from both models *)
 Theorem c09_repaired_defects_absent :
